@@ -60,6 +60,34 @@ func generateVCs(p *Prog, f *FuncIVL) ([]*Query, error) {
 		pb.reach = fmt.Sprintf("$R%d", b.ID)
 		pb.out = fmt.Sprintf("$O%d", b.ID)
 		ps := preds[b.ID]
+		// edge condition: the predecessor was left normally and chose this successor. Branches without
+		// mutually exclusive guards (select, nondeterministic choices) are made exclusive by a choice variable.
+		edge := func(q *Block) string {
+			if len(q.Succs) <= 1 {
+				return pbs[q.ID].out
+			}
+			var alts []string
+			for k, sc := range q.Succs {
+				if sc == b {
+					alts = append(alts, fmt.Sprintf("(= $ch%d %d)", q.ID, k))
+				}
+			}
+			c := alts[0]
+			if len(alts) > 1 {
+				c = "(or " + strings.Join(alts, " ") + ")"
+			}
+			return "(and " + pbs[q.ID].out + " " + c + ")"
+		}
+		// distinct predecessors only
+		var ups []*Block
+		seenP := map[int]bool{}
+		for _, q := range ps {
+			if !seenP[q.ID] {
+				seenP[q.ID] = true
+				ups = append(ups, q)
+			}
+		}
+		ps = ups
 		var reachDef string
 		if b == f.Entry {
 			reachDef = "true"
@@ -68,7 +96,7 @@ func generateVCs(p *Prog, f *FuncIVL) ([]*Query, error) {
 		} else {
 			var outs []string
 			for _, q := range ps {
-				outs = append(outs, pbs[q.ID].out)
+				outs = append(outs, edge(q))
 			}
 			if len(outs) == 1 {
 				reachDef = outs[0]
@@ -113,7 +141,7 @@ func generateVCs(p *Prog, f *FuncIVL) ([]*Query, error) {
 				srt := f.Vars[v]
 				pb.lines = append(pb.lines, fmt.Sprintf("(declare-const %s %s)", smtName(incName(v, n)), srt))
 				for _, q := range ps {
-					pb.lines = append(pb.lines, fmt.Sprintf("(assert (=> %s (= %s %s)))", pbs[q.ID].out,
+					pb.lines = append(pb.lines, fmt.Sprintf("(assert (=> %s (= %s %s)))", edge(q),
 						smtName(incName(v, n)), smtName(incName(v, pbs[q.ID].incOut[v]))))
 				}
 			}
@@ -197,6 +225,11 @@ func generateVCs(p *Prog, f *FuncIVL) ([]*Query, error) {
 	sort.Strings(vnames)
 	for _, v := range vnames {
 		fmt.Fprintf(&hdr, "(declare-const %s %s)\n", smtName(v), f.Vars[v])
+	}
+	for _, b := range order {
+		if len(b.Succs) > 1 {
+			fmt.Fprintf(&hdr, "(declare-const $ch%d Int)\n", b.ID)
+		}
 	}
 	header := hdr.String()
 	// ancestors per block
